@@ -1,4 +1,4 @@
-CONSTANTS Depth2 = 4 Depth3 = 2 Depth4 = 1 MaxEntry = 4 X2 = 5 X3 = 2 X4 = 1
+CONSTANTS Depth2 = 4 Depth3 = 2 Depth4 = 1 MaxEntry = 4 X2 = 5 X3 = 2 X4 = 1 NegLimit = 3
 SPECIFICATION Spec
 INVARIANTS Laws Emit
 CHECK_DEADLOCK FALSE
